@@ -318,6 +318,78 @@ func runCont1(m *Model, r *RuleResult) {
 	if nRing == 0 {
 		r.undecided("barriers-closed-ring", "-", "the geom function that turns a Polygon into []Segment", "not found")
 	}
+	// the path is the routed path (added after seeded change C20h): the two-point shortcut accepts the straight segment between two
+	// CONSECUTIVE points of the corridor's shortest path without a containment test, because that segment lies inside the corridor.
+	// That only holds while the fitter works on the path it was given: every path handed to an attempt or to a recursive call is the
+	// fitter's own path parameter or a slice expression of it - never a filtered or rebuilt list
+	for _, f := range m.Src {
+		if shortPkg(pkgPathOf(f)) != "internal/geom" || f.Parent() != nil || len(f.Blocks) == 0 {
+			continue
+		}
+		isRec := len(staticCalls(f, func(c *ssa.Function) bool { return c == f })) > 0
+		callsAttempt := len(staticCalls(f, func(c *ssa.Function) bool { return isAttempt(c) })) > 0
+		if !isRec || !callsAttempt {
+			continue
+		}
+		var pathParam *ssa.Parameter
+		for _, p := range f.Params {
+			if sl, ok := p.Type().Underlying().(*types.Slice); ok && isNamed(sl.Elem(), "P") {
+				pathParam = p
+				break
+			}
+		}
+		if pathParam == nil {
+			continue
+		}
+		var fromParam func(v ssa.Value, depth int) bool
+		fromParam = func(v ssa.Value, depth int) bool {
+			if depth > 6 {
+				return false
+			}
+			switch x := v.(type) {
+			case *ssa.Parameter:
+				return x == pathParam
+			case *ssa.Slice:
+				return fromParam(x.X, depth+1)
+			case *ssa.Phi:
+				for _, e := range x.Edges {
+					if !fromParam(e, depth+1) {
+						return false
+					}
+				}
+				return len(x.Edges) > 0
+			}
+			return false
+		}
+		var bad []string
+		nsites := 0
+		eachInstr(f, func(in ssa.Instruction) {
+			ci, ok := in.(ssa.CallInstruction)
+			if !ok {
+				return
+			}
+			c := ci.Common().StaticCallee()
+			if c == nil || !(c == f || isAttempt(c)) {
+				return
+			}
+			for i, p := range c.Params {
+				if sl, ok := p.Type().Underlying().(*types.Slice); ok && isNamed(sl.Elem(), "P") && i < len(ci.Common().Args) {
+					nsites++
+					if !fromParam(ci.Common().Args[i], 0) {
+						bad = append(bad, fmt.Sprintf("the path handed to %s at %s is %s", c.Name(), m.Pos(in.Pos()), ci.Common().Args[i].String()))
+					}
+				}
+			}
+		})
+		key := "path-unchanged:" + funcKey(f)
+		ctl := m.FuncIsPosctl(f)
+		if len(bad) == 0 {
+			r.add(Obligation{Key: key, Pos: m.Pos(f.Pos()), Desc: fmt.Sprintf("%d path argument(s) of attempts and recursive calls are the fitter's own path or slices of it", nsites), Verdict: "holds", Control: ctl})
+		} else {
+			r.add(Obligation{Key: key, Pos: m.Pos(f.Pos()), Desc: "the fitter works on the routed path itself", Verdict: "violation",
+				Detail: strings.Join(uniq(bad), "; ") + ", not the fitter's path parameter or a slice of it: two points of a rebuilt path need not be consecutive points of the corridor's shortest path, and the two-point shortcut accepts the straight segment between them without a containment test", Control: ctl})
+		}
+	}
 	r.add(Obligation{Key: "containment-test", Pos: m.Pos(contains[0].Pos()), Desc: fmt.Sprintf("containment test resolved by signature: %s; %d fitting attempt(s), %d recursive fitter(s)", funcKey(contains[0]), len(attempts), nFit), Verdict: "holds"})
 }
 
